@@ -144,6 +144,8 @@ def reasons(d):
                         out.add(r)
                 if k == 'expr' and ('`' in v or not all(ch == '\n' or ch.isprintable() for ch in v)):
                     out.add('ExprBacktick')
+                if k == 'expr' and '\n' in v:
+                    out.add('MultilineExpr')
             note('column_note', c['note'])
             if c['props'] and not d['allow_properties']:
                 out.add('PropsHidden')
@@ -164,6 +166,8 @@ def reasons(d):
                         out.add('NeedsQuoting')
                 elif '`' in s['expr'] or not all(ch == '\n' or ch.isprintable() for ch in s['expr']):
                     out.add('ExprBacktick')
+                if 'expr' in s and '\n' in s['expr']:
+                    out.add('MultilineExpr')
             if ix['name']:
                 r = text_reason('index_name', ix['name'])
                 if r:
